@@ -317,10 +317,101 @@ std::string build_case(const std::string &kind_in) {
   return text;
 }
 
+// ---- crash / fault histories (C02 C03 C04 C05 C12 C17): writes with sync flags, structure changes, reopen ----
+std::string crash_val(const Profile &p, bool c04) {
+  int c = uni(0, 999);
+  char kind = chance(50) ? 'r' : 'c';
+  int seed = uni(0, 999999);
+  int len;
+  if (c < 60) len = 0;
+  else if (c < 700) len = uni(1, 120);
+  else if (c < 900) len = uni(500, 4000);
+  else if (c < (c04 ? 940 : 985)) len = uni(8000, 20000);
+  else len = uni(33000, p.thorough ? 140000 : 70000);   // spans log blocks
+  if (len == 0) return "x";
+  return fmt("%c%d.%d", kind, seed, len);
+}
+
+std::string build_crash_case(const std::string &kind_in) {
+  Profile p;
+  std::string kind = kind_in;
+  size_t dash = kind.find('-');
+  if (dash != std::string::npos) {
+    if (kind.substr(dash + 1) == "thorough") p.thorough = true;
+    kind = kind.substr(0, dash);
+  }
+  p.kind = kind;
+  p.nkeys = pick<int>({{3, 5}, {4, 10}, {2, 30}});
+  bool c04 = kind == "C04", c17 = kind == "C17";
+  std::vector<std::string> lines;
+  {
+    std::string s = "config";
+    s += fmt(" wbs=%d", pick<int>({{8, 65536}, {1, 131072}}));
+    s += fmt(" bs=%d", pick<int>({{2, 1024}, {3, 4096}}));
+    s += fmt(" ri=%d", pick<int>({{1, 1}, {3, 16}}));
+    s += fmt(" comp=%d", uni(0, 1));
+    s += fmt(" bloom=%d", pick<int>({{2, 0}, {1, 10}}));
+    s += fmt(" mmap=%d", uni(0, 1));
+    s += fmt(" reuse=%d", uni(0, 1));
+    s += fmt(" paranoid=%d", uni(0, 1));
+    s += " cmp=" + pick<std::string>({{8, "bytewise"}, {1, "reverse"}, {1, "lenfirst"}});
+    s += " sched=" + pick<std::string>({{3, "eager"}, {3, "starved"}, {4, "random"}});
+    s += fmt(" sseed=%d", uni(1, 1000000));
+    lines.push_back(s);
+  }
+  int len = *rc::gen::withSize([&](int size) { return rc::gen::just(size); });
+  int nops = 5 + (p.thorough ? len : (len * 35) / 100) + uni(0, 5);
+  int sync_pct = pick<int>({{2, 10}, {3, 35}, {1, 80}});
+  for (int i = 0; i < nops; i++) {
+    int c = uni(0, 99);
+    std::string sync = chance(sync_pct) ? " sync=1" : "";
+    int wput = 42, wdel = 8, wbatch = c04 ? 30 : 12, wflush = 8, wcr = 6, wcomp = 1, wreopen = c17 ? 14 : 6, wfill = 3;
+    int total = wput + wdel + wbatch + wflush + wcr + wcomp + wreopen + wfill;
+    c = uni(0, total - 1);
+    if ((c -= wput) < 0) lines.push_back("put " + gen_key(p) + " " + crash_val(p, c04) + sync);
+    else if ((c -= wdel) < 0) lines.push_back("del " + gen_key(p) + sync);
+    else if ((c -= wbatch) < 0) {
+      int n = c04 ? pick<int>({{4, uni(2, 6)}, {3, uni(7, 40)}, {1, uni(100, p.thorough ? 2000 : 400)}}) : pick<int>({{6, uni(1, 4)}, {2, uni(5, 20)}});
+      std::string s = "batch";
+      for (int j = 0; j < n; j++) {
+        if (chance(78)) s += " p:" + gen_key(p) + ":" + (n > 50 ? fmt("r%d.%d", uni(0, 99999), uni(0, 300)) : crash_val(p, c04));
+        else s += " d:" + gen_key(p);
+      }
+      lines.push_back(s + sync);
+    }
+    else if ((c -= wflush) < 0) lines.push_back("flush");
+    else if ((c -= wcr) < 0) lines.push_back(fmt("crange %d - -", pick<int>({{5, 0}, {3, 1}, {1, 2}})));
+    else if ((c -= wcomp) < 0) lines.push_back("compact");
+    else if ((c -= wreopen) < 0) {
+      std::string s = "reopen";
+      if (chance(40)) s += fmt(" reuse=%d", uni(0, 1));
+      if (chance(15)) s += fmt(" paranoid=%d", uni(0, 1));
+      lines.push_back(s);
+    } else {
+      int nb = pick<int>({{3, 1000}, {2, 2500}});
+      int total_b = pick<int>({{3, 70000}, {1, 140000}});
+      int lo = uni(0, 20);
+      lines.push_back(fmt("fill %d %d %d %d syncevery=%d", lo, lo + total_b / nb, nb, uni(1, 50), pick<int>({{2, 0}, {2, 3}, {1, 10}})));
+    }
+  }
+  std::string text;
+  for (auto &l : lines) { text += l; text += "\n"; }
+  return text;
+}
+
+bool is_crash_kind(const std::string &k) {
+  std::string b = k.substr(0, k.find('-'));
+  return b == "C02" || b == "C03" || b == "C04" || b == "C05" || b == "C12" || b == "C17";
+}
+
 }  // namespace
 
 std::string gen_case(const char *kind, uint64_t seed, int size) {
   std::string k = kind;
+  if (is_crash_kind(k)) {
+    Gen<std::string> g2 = rc::gen::exec([k]() { return build_crash_case(k); });
+    return g2(rc::Random(seed), size).value();
+  }
   Gen<std::string> g = rc::gen::exec([k]() { return build_case(k); });
   return g(rc::Random(seed), size).value();
 }
